@@ -2116,13 +2116,17 @@ f_objects (void)
   funptr_t *f = 0;
   int display_hidden = 0, t_sz, i, j, num_arg = st_num_arg;
   svalue_t *v;
+  svalue_t *arg = sp - num_arg + 1; /* objects (func | f [, ob]) */
+  object_t *target = current_object;
 
   if (!num_arg)
     func = 0;
-  else if (sp->type == T_FUNCTION)
-    f = sp->u.fp;
+  else if (arg->type == T_FUNCTION)
+    f = arg->u.fp;
   else
-    func = sp->u.string;
+    func = arg->u.string;
+  if (num_arg > 1)
+    target = arg[1].u.ob; /* "ob->func() is called with each loaded object" */
 
   if (!(tmp = (object_t **) new_string ((t_sz = 1000) * sizeof (object_t *),
                                         "TMP: objects: tmp")))
@@ -2147,8 +2151,8 @@ f_objects (void)
             {
               FREE_MSTR ((char *) tmp);
               sp--;
-              free_svalue (sp, "f_objects");
-              *sp = const0;
+              pop_n_elems (num_arg);
+              push_number (0);
               return;
             }
           if (v->type == T_NUMBER && !v->u.number)
@@ -2157,13 +2161,16 @@ f_objects (void)
       else if (func)
         {
           push_object (ob);
-          v = apply (func, current_object, 1, ORIGIN_EFUN);
+          if (target->flags & O_DESTRUCTED)
+            v = 0;
+          else
+            v = apply (func, target, 1, ORIGIN_EFUN);
           if (!v)
             {
               FREE_MSTR ((char *) tmp);
               sp--;
-              free_svalue (sp, "f_objects");
-              *sp = const0;
+              pop_n_elems (num_arg);
+              push_number (0);
               return;
             }
           if ((v->type == T_NUMBER) && !v->u.number)
